@@ -132,7 +132,11 @@ def check(case):
         # the features directory, or every feature file by its own path (equally named files in different
         # sub-directories are different features with different reports)
         argv += ["-f", "null"] + (list(proj.feature_files) if layout.get("as_files") else ["features"])
-        run = disk.run_inproc(proj, argv, prog)
+        twice = bool(case.get("twice")) and not (prog.get("hook_faults") or prog.get("cleanups") or
+                                                 prog.get("hook_faults_named") or (prog.get("cfg") or {}).get("stop"))
+        if twice:
+            res.label("one-configuration-two-runs")
+        run = disk.run_inproc(proj, argv, prog, runs=2 if twice else 1)
         if run.escaped is not None:
             res.fail("C16.reporter-raises", "run with --junit raised %s: %s" % (type(run.escaped).__name__, run.escaped))
             return res
@@ -324,7 +328,7 @@ def case_st(draw):
                  "show_skipped_always"):
         if draw(st.integers(0, 5)) == 0:
             userdata[name] = draw(st.booleans())
-    case = {"program": prog, "userdata": userdata, "hostile": hostile}
+    case = {"program": prog, "userdata": userdata, "hostile": hostile, "twice": draw(st.integers(0, 3)) == 0}
     if len(prog["features"]) == 2 and draw(st.integers(0, 2)) == 0:
         case["layout"] = {"subdirs": {"1": draw(st.sampled_from(["sub", "a/b"]))}, "as_files": draw(st.booleans())}
         if draw(st.booleans()):
@@ -353,7 +357,7 @@ def explore(rec):
 
 
 def required_labels(tier):
-    return ["hostile", "hostile:output>1KiB", "hostile-scenario-name", "failing-scenario", "no-skipped", "hook-fault", "tag-hook-raises-for-a-container-tag", "raising-cleanup", "raising-cleanup:hostile-message",
+    return ["hostile", "hostile:output>1KiB", "hostile-scenario-name", "failing-scenario", "no-skipped", "hook-fault", "one-configuration-two-runs", "tag-hook-raises-for-a-container-tag", "raising-cleanup", "raising-cleanup:hostile-message",
             "userdata:show_skipped_always", "userdata:show_scenarios", "reports:2", "layout:sub-directory",
             "layout:equally-named-files", "layout:files-as-arguments", "cli:LC_ALL=C", "cli:non-ascii-names"]
 
